@@ -276,6 +276,14 @@ def firstReaderErr {α : Type} : Prog α → RB → Option RErr
     | (.err e, b') => if e.isReaderFailure then some e else firstReaderErr (k (.error e)) b'
     | (.panic, _) => none
 
+/-- the first failure of the reader itself that `io.ReadFull` handed to a client reading straight from the reader -/
+def firstFullErr {α : Type} : Prog α → Sched → Option RErr
+  | .ret _, _ => none
+  | .read n k, s =>
+    match readFull n s with
+    | (d, none, s') => firstFullErr (k (.ok d)) s'
+    | (_, some e, s') => if e.isReaderFailure then some e else firstFullErr (k (.error e)) s'
+
 /-- run a client on the exact-n reader over a byte stream -/
 def runExact {α : Type} : Prog α → Bytes → α
   | .ret a, _ => a
